@@ -9,6 +9,7 @@
 import json, os, shutil, subprocess, sys, time
 VERIF = os.path.dirname(os.path.dirname(os.path.abspath(__file__)))
 SEEDED = os.path.join(VERIF, "seeded")
+REPO = os.environ.get("VERIF_REPO", "/repo")
 
 
 def sh(cmd, **kw):
@@ -23,7 +24,7 @@ def confirm(prop, n):
     sh(["git", "-C", wt, "checkout", "--", "."])
     r = sh(["git", "-C", wt, "apply", "--check", patch])
     res["applies_to_worktree"] = r.returncode == 0
-    r = sh(["git", "-C", "/repo", "apply", "--check", patch])
+    r = sh(["git", "-C", REPO, "apply", "--check", patch])
     res["applies_to_repo_head"] = r.returncode == 0
     if not res["applies_to_worktree"]:
         return res
@@ -56,9 +57,9 @@ def run(name, checks):
     meta = json.load(open(os.path.join(d, "meta.json")))
     prop = meta.get("property", name.split("-")[0])
     checks = checks or [prop]
-    if sh(["git", "-C", "/repo", "status", "--porcelain", "--untracked-files=no"]).stdout.strip():
+    if sh(["git", "-C", REPO, "status", "--porcelain", "--untracked-files=no"]).stdout.strip():
         raise SystemExit("/repo is not clean")
-    r = sh(["git", "-C", "/repo", "apply", os.path.join(d, "patch.diff")])
+    r = sh(["git", "-C", REPO, "apply", os.path.join(d, "patch.diff")])
     if r.returncode != 0:
         meta.setdefault("checks", {})["_apply"] = r.stdout[-300:]
         json.dump(meta, open(os.path.join(d, "meta.json"), "w"), indent=1)
@@ -83,10 +84,10 @@ def run(name, checks):
             meta.setdefault("checks", {})[c] = info
             print(name, c, "CAUGHT" if info["caught"] else "missed", info.get("replay_site"), "%.0fs" % info["wall_s"], flush=True)
     finally:
-        sh(["git", "-C", "/repo", "checkout", "--", "."])
+        sh(["git", "-C", REPO, "checkout", "--", "."])
         json.dump(meta, open(os.path.join(d, "meta.json"), "w"), indent=1)
         # evidence files were rewritten by runs on a modified tree: restore the committed ones
-        sh(["git", "-C", VERIF, "checkout", "--", "evidence", "lean/Jose/Tables.lean"])
+        sh(["git", "-C", VERIF, "checkout", "--", "evidence", "lean/Jose/Tables.lean", "lean/Jose/SugTable.lean"])
 
 
 if __name__ == "__main__":
